@@ -1,9 +1,243 @@
 import ShpanVerif.Util.Parse
-/- Driver handler for C12 (stub: replaced when the property's model lands). -/
+import ShpanVerif.Model.Period
+/-
+Driver handler for C12 (alignment periods tile the timeline).  Case formats: see harness/run/c12.go.
+
+  P <kind> | zone <name> <init> <trans> | t <i1>,<i2>,...         obs: s,e,ss,se;...
+  S <kind> | zone <name> <init> <trans> | from <i> to <i> budget <n>   obs: ok <list> | budget <list>
+  CAL <d1>,<d2>,...                                               obs: y/m/d/wd/monthStartDay;...
+
+Spec predicate (evaluated on the OBSERVED numbers only):
+  P: for every instant  start ≤ t < end,  start(start) = start,  start(end) = end;  across the (ascending)
+     instants of the line: starts are non-decreasing, and an instant that lies before the end of an earlier
+     instant's period has the same start and end (periods do not overlap).
+  S: the emitted list is exactly the period starts (fixed points of `start`) in [start(from), to),
+     strictly increasing; `budget` is accepted only when more period starts than the budget exist.
+A failing law is tagged `KF:D14` iff a transition's skipped/repeated local interval touches a local midnight
+that the computation uses (the period's start day or the next period's start day; for weeks also the
+day after, see `d14P`).
+-/
 namespace ShpanVerif.Drive.C12
+open ShpanVerif.Util ShpanVerif.Model.Period
+
+def parseKind (s : String) : Option Kind :=
+  match s with
+  | "day" => some .day | "week" => some .week | "month" => some .month
+  | "quarter" => some .quarter | "half" => some .half | "year" => some .year
+  | _ => match s.splitOn ":" with
+    | ["fixed", d] => do let d ← d.toInt?; if d > 0 then pure (.fixed d) else none
+    | _ => none
+
+def parseTr (s : String) : Option (Int × Int) :=
+  match s.splitOn ":" with
+  | [w, o] => do let w ← w.toInt?; let o ← o.toInt?; pure (w, o)
+  | _ => none
+
+def parseZone (ts : List String) : Option Zone :=
+  match ts with
+  | ["zone", _name, init, tr] => do
+      let init ← init.toInt?
+      let tr ← if tr == "-" then some [] else (tr.splitOn ",").mapM parseTr
+      pure ⟨init, tr⟩
+  | _ => none
+
+/-! ### the D14 classifier: pure calendar grid + "a transition touches that local midnight" -/
+
+/-- first day of the period containing local day `L` (calendar only, no zone) -/
+def gridStart : Kind → Int → Int
+  | .fixed _, L => L
+  | .day, L => L
+  | .week, L => L - (L + 3) % 7
+  | .month, L => monthStart (monthIdx L)
+  | .quarter, L => monthStart (3 * (monthIdx L / 3))
+  | .half, L => monthStart (6 * (monthIdx L / 6))
+  | .year, L => monthStart (12 * (monthIdx L / 12))
+
+/-- first day of the period after the one starting on day `P` -/
+def gridNext : Kind → Int → Int
+  | .fixed _, P => P + 1
+  | .day, P => P + 1
+  | .week, P => P + 7
+  | .month, P => monthStart (monthIdx P + 1)
+  | .quarter, P => monthStart (monthIdx P + 3)
+  | .half, P => monthStart (monthIdx P + 6)
+  | .year, P => monthStart (monthIdx P + 12)
+
+/-- some offset change skips or repeats a local interval [lo, hi) containing the local midnight of day `D`
+(`closed`: hi included — only relevant for the week period's `AddDate` intermediate). -/
+def touchFrom (closed : Bool) (D : Int) (prev : Int) : List (Int × Int) → Bool
+  | [] => false
+  | (w, o) :: rest =>
+    let lo := w + min prev o
+    let hi := w + max prev o
+    let m := D * 86400
+    (prev != o && lo ≤ m && (m < hi || (closed && m == hi))) || touchFrom closed D o rest
+
+def touch (z : Zone) (closed : Bool) (D : Int) : Bool := touchFrom closed D z.init z.trans
+
+/-- which touched midnight makes (kind, zone, instant) an instance of D14 ("" = none) -/
+def d14Why (k : Kind) (z : Zone) (t : Int) : String :=
+  match k with
+  | .fixed _ => ""
+  | _ =>
+    let L := localDay z (t / NS)
+    let P := gridStart k L
+    let N := gridNext k P
+    if touch z false P then s!"start-day {P}"
+    else if touch z false N then s!"next-start-day {N}"
+    else if k == .week && (touch z true P || touch z true (P + 1)) then s!"week-intermediate {P}"
+    else ""
+
+/-- is (kind, zone, instant) an instance of D14? -/
+def d14P (k : Kind) (z : Zone) (t : Int) : Bool := d14Why k z t != ""
+
+/-- D14 for a stream: some period start day from the period of `from` to the period after `to` is touched -/
+def d14S (k : Kind) (z : Zone) (from_ to : Int) : Bool :=
+  match k with
+  | .fixed _ => false
+  | _ =>
+    let P0 := gridStart k (localDay z (from_ / NS) - 1)
+    let last := localDay z (to / NS) + 1
+    let rec go (fuel : Nat) (P : Int) : Bool :=
+      match fuel with
+      | 0 => false
+      | fuel + 1 =>
+        if touch z false P || (k == .week && (touch z true P || touch z true (P + 1))) then true
+        else if P > last then false else go fuel (gridNext k P)
+    go 5000 P0
+
+/-! ### P lines -/
+
+def parseGroup (s : String) : Option (Int × Int × Int × Int) :=
+  match s.splitOn "," with
+  | [a, b, c, d] => do
+      let a ← a.toInt?; let b ← b.toInt?; let c ← c.toInt?; let d ← d.toInt?
+      pure (a, b, c, d)
+  | _ => none
+
+def fmtGroup (g : Int × Int × Int × Int) : String := s!"{g.1},{g.2.1},{g.2.2.1},{g.2.2.2}"
+
+/-- the four per-instant laws on observed numbers; returns the name of the first failing law -/
+def lawsAt (t : Int) (g : Int × Int × Int × Int) : Option String :=
+  let (s, e, ss, se) := g
+  if !(s ≤ t) then some "start<=t"
+  else if !(t < e) then some "t<end"
+  else if ss != s then some "start(start)=start"
+  else if se != e then some "start(end)=end"
+  else none
+
+/-- cross-instant laws on an ascending list of (t, observed group): monotone, no overlap -/
+def crossLaws : List (Int × (Int × Int × Int × Int)) → Option (String × Int × Int)
+  | [] => none
+  | (t, g) :: rest =>
+    let bad := rest.find? (fun (t', g') =>
+      !(g.1 ≤ g'.1) || (t' < g.2.1 && (g'.1 != g.1 || g'.2.1 != g.2.1)))
+    match bad with
+    | some (t', g') => some (if !(g.1 ≤ g'.1) then "monotone" else "same-period", t, t')
+    | none => crossLaws rest
+
+def handleP (k : Kind) (z : Zone) (ts : List Int) (obs : String) : String × Bool × String :=
+  let model := ts.map (fun t =>
+    let s := start k z t
+    let e := «end» k z t
+    (s, e, start k z s, start k z e))
+  let modelStr := ";".intercalate (model.map fmtGroup)
+  match (obs.splitOn ";").mapM parseGroup with
+  | none => (modelStr, false, "unparsable observation")
+  | some gs =>
+    if gs.length != ts.length then (modelStr, false, "observation has the wrong number of groups") else
+    let pairs := ts.zip gs
+    let ascending := (ts.zip ts.tail).all (fun (a, b) => a < b)
+    match pairs.find? (fun (t, g) => (lawsAt t g).isSome) with
+    | some (t, g) =>
+      let law := (lawsAt t g).getD ""
+      if d14P k z t then (modelStr, false, s!"KF:D14 law {law} fails at t={t} (a zone transition touches the local midnight of {d14Why k z t})")
+      else (modelStr, false, s!"law {law} fails at t={t} obs={fmtGroup g} (no transition touches the period's local midnights)")
+    | none =>
+      if !ascending then (modelStr, false, "instants of the case are not ascending") else
+      match crossLaws pairs with
+      | some (law, t, t') =>
+        if d14P k z t || d14P k z t' then (modelStr, false, s!"KF:D14 law {law} fails between t={t} and t'={t'} (a zone transition touches the local midnight of {d14Why k z t}{d14Why k z t'})")
+        else (modelStr, false, s!"law {law} fails between t={t} and t'={t'} (no transition touches the periods' local midnights)")
+      | none => (modelStr, true, "")
+
+/-! ### S lines -/
+
+def fmtStream (budget : Nat) (l : List Int) : String :=
+  if l.length > budget then "budget " ++ fmtIntList (l.take budget) else "ok " ++ fmtIntList l
+
+/-- `l` = consecutive period starts beginning at `s0`, all `< to` (period starts = fixed points of `sF`) -/
+def chainOK (sF : Int → Int) (to : Int) : Int → List Int → Bool
+  | _, [] => true
+  | prev, x :: rest => prev < x && x < to && sF x == x && sF (x - 1) == prev && chainOK sF to x rest
+
+def streamSpec (sF : Int → Int) (from_ to : Int) (complete : Bool) (l : List Int) : Option String :=
+  let s0 := sF from_
+  match l with
+  | [] =>
+    if complete then (if s0 < to then some "nothing emitted although start(from) < to" else none)
+    else (if s0 < to then none else some "budget 0 exceeded although start(from) >= to")
+  | x :: rest =>
+    if x != s0 then some s!"first emitted {x} is not start(from)={s0}"
+    else if !(x < to) then some "emitted an instant >= to"
+    else if sF x != x then some s!"first emitted {x} is not a period start"
+    else if !chainOK sF to x rest then some "emitted instants are not the consecutive period starts below `to`"
+    else
+      let last := (x :: rest).getLast?.getD x
+      let more := sF (to - 1) != last
+      if complete && more then some s!"stream ended at {last} but a later period start lies below `to`"
+      else if !complete && !more then some "stream went on past the last period start below `to`"
+      else none
+
+def handleS (k : Kind) (z : Zone) (from_ to : Int) (budget : Nat) (obs : String) : String × Bool × String :=
+  let sF := start k z
+  let model := fmtStream budget (alignedTimestamps sF («end» k z) from_ to (budget + 1))
+  let parsed : Option (Bool × List Int) :=
+    match words obs with
+    | ["ok", l] => (parseIntList l).map (fun l => (true, l))
+    | ["budget", l] => (parseIntList l).map (fun l => (false, l))
+    | _ => none
+  match parsed with
+  | none => (model, false, "unparsable observation")
+  | some (complete, l) =>
+    let verdict :=
+      if !complete && l.length != budget then some "budget observation of the wrong length"
+      else streamSpec sF from_ to complete l
+    match verdict with
+    | none => (model, true, "")
+    | some why =>
+      if d14S k z from_ to then (model, false, s!"KF:D14 {why} (a zone transition touches a period-start local midnight in range)")
+      else (model, false, why)
+
+/-! ### CAL lines -/
+
+def handleCal (days : List Int) (obs : String) : String × Bool × String :=
+  let model := ";".intercalate (days.map (fun L =>
+    let (y, m, d) := civil L
+    s!"{y}/{m}/{d}/{weekday L}/{monthStart (monthIdx L)}"))
+  let groups := (obs.splitOn ";").map (fun g => (g.splitOn "/").mapM String.toInt?)
+  let ok := groups.length == days.length && (days.zip groups).all (fun (L, g) =>
+    match g with
+    | some [y, m, d, w, ms] =>
+      1 ≤ m && m ≤ 12 && 1 ≤ d && d ≤ 31 && ms + d - 1 == L && w == (L + 4) % 7 && 0 ≤ y + 1000000000
+    | _ => false)
+  (model, ok, if ok then "" else "Go's calendar is not self-consistent on these days")
 
 /-- returns (model output, spec verdict on the observation, reason) -/
-def handle (_c _obs : String) : String × Bool × String :=
-  ("unimplemented", false, "no model yet")
+def handle (c obs : String) : String × Bool × String :=
+  match splitAt "|" (words c) with
+  | [["CAL", ds]] =>
+    match parseIntList ds with
+    | some days => handleCal days obs
+    | none => ("bad-case", false, "unparsable case")
+  | [["P", k], zt, ["t", ts]] =>
+    match parseKind k, parseZone zt, parseIntList ts with
+    | some k, some z, some ts => handleP k z ts obs
+    | _, _, _ => ("bad-case", false, "unparsable case")
+  | [["S", k], zt, ["from", a, "to", b, "budget", n]] =>
+    match parseKind k, parseZone zt, a.toInt?, b.toInt?, n.toNat? with
+    | some k, some z, some a, some b, some n => handleS k z a b n obs
+    | _, _, _, _, _ => ("bad-case", false, "unparsable case")
+  | _ => ("bad-case", false, "unparsable case")
 
 end ShpanVerif.Drive.C12
